@@ -12,16 +12,20 @@ using namespace vh;
 namespace {
 
 struct Case {
-    int entry; uint64_t seed; size_t len0; int nfixed; unsigned long mask; bool misalign;
-    KV kv() const { KV k; k.s("entry", api::table()[entry].name).u("seed", seed).u("len0", len0).u("nfixed", nfixed).u("mask", mask).u("misalign", misalign); return k; }
+    int entry; uint64_t seed; size_t len0; int nfixed; unsigned long mask; bool misalign; int guard = 0;    // guard: 0 ASan redzones, 1 / 2 hardware guard page after / before every buffer
+    KV kv() const { KV k; k.s("entry", api::table()[entry].name).u("seed", seed).u("len0", len0).u("nfixed", nfixed).u("mask", mask).u("misalign", misalign).u("guard", guard); return k; }
 };
 bool run(const Case &c, std::string &msg) {
     set_mask(c.mask);
-    api::Ctx a(c.seed);
-    for (int i = 0; i < c.nfixed; i++) a.fixed_lens.push_back(c.len0);
-    a.maxlen = 1100; a.misalign = c.misalign;
-    api::table()[c.entry].fn(a);
-    a.finish();
+    XBuf::guard_mode() = c.guard;
+    {
+        api::Ctx a(c.seed);
+        for (int i = 0; i < c.nfixed; i++) a.fixed_lens.push_back(c.len0);
+        a.maxlen = 1100; a.misalign = c.misalign;
+        api::table()[c.entry].fn(a);
+        a.finish();
+    }
+    XBuf::guard_mode() = 0;
     (void) msg;
     return true;        // a violation shows up as a sanitizer abort / signal (journaled case) or a UBSan line in the log
 }
@@ -42,6 +46,8 @@ void explore_lengths(Ctx &ctx) {
             unsigned long m = masks[(len + e) % masks.size()].mask;
             Case c{ (int) e, seed, len, 1, m, true };
             exec_case(ctx, c, run, mix64(mix64(e, len), mix64(m, 1)), len > 0);
+            // the same case with every buffer against a hardware guard page (accesses from assembly are invisible to ASan)
+            if (cost == 0 || len % 4 == 0) { Case g = c; g.guard = 1 + (int) ((len + e) % 2); g.mask = masks[(len / 2 + e) % masks.size()].mask; exec_case(ctx, g, run, mix64(mix64(e, len), mix64(g.mask, 10 + g.guard)), len > 0); if (len < 130) { g.guard = 3 - g.guard; exec_case(ctx, g, run, mix64(mix64(e, len), mix64(g.mask, 10 + g.guard)), len > 0); } }
             if (cost == 0 && (len % 3 == 0 || ctx.thorough())) { Case c2{ (int) e, seed ^ 0x77, len, 2, masks[(len / 3 + e) % masks.size()].mask, (len % 2) == 0 }; exec_case(ctx, c2, run, mix64(mix64(e, len), mix64(c2.mask, 2)), len > 0); }
         }
     }
@@ -56,7 +62,8 @@ void explore_random(Ctx &ctx) {
         if (T[e].cost == 2 && r.below(8)) continue;
         if (T[e].cost == 1 && r.below(3)) continue;
         Case c{ (int) e, r.next(), 0, 0, masks[r.below(masks.size())].mask, r.below(4) != 0 };
-        exec_case(ctx, c, run, mix64(mix64(e, c.seed), c.mask), true);
+        c.guard = (int) r.below(5); if (c.guard > 2) c.guard = 0;
+        exec_case(ctx, c, run, mix64(mix64(e, c.seed), mix64(c.mask, c.guard)), true);
     }
 }
 
@@ -68,8 +75,8 @@ struct LimCase {
 const char *LN[] = { "crypto_aead_chacha20poly1305_ietf_encrypt mlen", "crypto_aead_chacha20poly1305_encrypt mlen", "crypto_aead_xchacha20poly1305_ietf_encrypt mlen", "crypto_aead_aes256gcm_encrypt mlen", "crypto_aead_aegis128l_encrypt mlen",
                      "crypto_aead_aegis256_encrypt mlen", "crypto_secretbox_easy mlen", "crypto_secretbox_xchacha20poly1305_easy mlen", "crypto_box_easy mlen", "crypto_box_seal mlen", "crypto_secretstream_push mlen",
                      "crypto_stream_chacha20_ietf clen", "crypto_stream_chacha20_ietf_xor_ic counter overflow", "sodium_bin2hex capacity", "sodium_bin2base64 capacity", "sodium_bin2base64 variant", "sodium_pad overflow",
-                     "randombytes_buf_deterministic size", "crypto_aead_chacha20poly1305_ietf_decrypt clen", "crypto_box_curve25519xchacha20poly1305_easy mlen", "sodium_base64_encoded_len variant", "crypto_sign (no limit: huge message pointer never touched when rejected)" };
-const int NLIM = 21;
+                     "randombytes_buf_deterministic size", "crypto_aead_chacha20poly1305_ietf_decrypt clen", "crypto_box_curve25519xchacha20poly1305_easy mlen", "sodium_base64_encoded_len variant", "crypto_stream_chacha20_ietf_xor_ic mlen (ic = 0)", "crypto_stream_chacha20_ietf_xor mlen", "crypto_stream_chacha20_ietf_xor_ic mlen near 2^64 (ic = 1)" };
+const int NLIM = 24;
 void misuse_exit(void) { _exit(42); }
 int child(const LimCase &c) {
     sodium_set_misuse_handler(misuse_exit);
@@ -101,6 +108,9 @@ int child(const LimCase &c) {
     case 18: return 42;   // (decrypt functions authenticate the claimed ciphertext before anything else, so an oversize claim cannot be probed with small buffers)
     case 19: rc = crypto_box_curve25519xchacha20poly1305_easy(out, buf, crypto_box_curve25519xchacha20poly1305_MESSAGEBYTES_MAX + over, n, pk, sk); break;
     case 20: (void) sodium_base64_encoded_len(10, (int) (over % 2 ? 0 : 2 + 2 * (over % 4))); rc = 0; break;
+    case 21: rc = crypto_stream_chacha20_ietf_xor_ic(out, buf, crypto_stream_chacha20_ietf_MESSAGEBYTES_MAX + over, n, 0, k); break;
+    case 22: rc = crypto_stream_chacha20_ietf_xor(out, buf, crypto_stream_chacha20_ietf_MESSAGEBYTES_MAX + over, n, k); break;
+    case 23: rc = crypto_stream_chacha20_ietf_xor_ic(out, buf, 0xffffffffffffffffULL - over + 1, n, 1, k); break;      // mlen + 63 wraps around
     }
     return rc != 0 ? 43 : 0;
 }
@@ -128,7 +138,7 @@ bool replay(const KV &k, std::string &msg) {
     Case c; c.entry = -1;
     for (size_t i = 0; i < api::table().size(); i++) if (k.gs("entry") == api::table()[i].name) c.entry = (int) i;
     if (c.entry < 0) { msg = "unknown entry"; return false; }
-    c.seed = k.gu("seed"); c.len0 = k.gu("len0"); c.nfixed = (int) k.gu("nfixed"); c.mask = k.gu("mask"); c.misalign = k.gu("misalign");
+    c.seed = k.gu("seed"); c.len0 = k.gu("len0"); c.nfixed = (int) k.gu("nfixed"); c.mask = k.gu("mask"); c.misalign = k.gu("misalign"); c.guard = k.has("guard") ? (int) k.gu("guard") : 0;
     return run(c, msg);
 }
 
